@@ -119,7 +119,25 @@ class Gen:
             s = g.choice(GOOD_STR + BAD_STR)
             return self.emit(f"{kind} {r} {sarg(s)}")
         if kind == "eq":
-            return self.emit(f"eq {r} {g.randrange(self.n)}")
+            d = g.randrange(self.n)
+            if d != r and g.random() < 0.6:
+                # make d a near-copy of r, then disturb which keys are present / zero
+                self.form[d] = self.form[r]
+                self.emit(f"clone {d} {r}", d, b[r])
+                k2, k3 = g.sample(KEYS, 2)
+                choice = g.randrange(4)
+                if choice == 0:
+                    self.emit(f"set {d} {k2} 0", d, b[d])
+                    self.emit(f"set {r} {k3} 0", r, b[r])
+                elif choice == 1:
+                    self.emit(f"set {d} {k2} 0", d, b[d])
+                elif choice == 2:
+                    self.emit(f"iadd {d} {k2} 1", d, b[d] + 1)
+                    self.emit(f"iadd {d} {k2} -1", d, b[d] + 1)
+                    self.emit(f"set {r} {k3} 0", r, b[r])
+                self.emit(f"eq {r} {d}")
+                return self.emit(f"eq {d} {r}")
+            return self.emit(f"eq {r} {d}")
         if kind == "new":
             f = g.choice(FORMS) if allow_conv else self.form[r]
             self.form[r] = f
@@ -157,8 +175,18 @@ def gen_cases(seed, tier):
         "new 0 vec;sidx 0 233;sidx 0 67,91,120,93;sidx 0 67,91,57,57,57,57,57,93;sidx 0 233,91,49,93",
         "new 0 vec;set 0 C:0 1;new 1 map;set 1 C:13 2;set 1 C:0 4;sub 2 0 1 ref;addi 0 1 own;subi 1 0 mut",
     ]
+    corpus += [
+        # equality probes: same length, zero counts, different keys; asymmetric presence
+        "new 0 vec;new 1 vec;set 0 C:0 2;set 0 O:0 1;iadd 0 O:0 -1;set 1 C:0 2;set 1 Cl:0 1;eq 0 1;eq 1 0",
+        "new 0 vec;new 1 vec;set 0 C:0 2;set 0 O:0 0;set 1 C:0 2;set 1 O:18 0;eq 0 1;eq 1 0;set 1 O:0 0;eq 0 1",
+        "new 0 vec;new 1 vec;set 0 C:13 1;set 0 C:0 6;set 0 H:0 12;gets 0 67;sidx 0 67;incs 0 67 -1;gets 0 67;set 1 C:0 5;set 1 C:13 1;set 1 H:0 12;eq 0 1",
+    ]
     for i, c in enumerate(corpus):
-        cases.append(dict(kind="corpus", ops=c.split(";"), group=f"corpus{i}", nregs=3))
+        ops = c.split(";")
+        cases.append(dict(kind="corpus", ops=ops, group=f"corpus{i}", nregs=3))
+        if not any(o.split()[0] in ("conv", "gsm") for o in ops):
+            for f in FORMS:
+                cases.append(dict(kind="lockstep", form=f, ops=render_uniform(ops, f), group=f"corpusL{i}", nregs=3))
     # 2. exhaustive short histories over a reduced alphabet, in lock-step on the four forms
     alphabet = ["set 0 C:0 2", "inc 0 C:13 3", "iadd 0 C:0 -2", "sset 0 67 5", "incs 0 67,91,49,51,93 1",
                 "fmass 0", "fmass 1", "muli 0 -1 own", "itm 0 zero", "mul 1 0 2 ref", "neg 1 0 ref",
